@@ -4,7 +4,7 @@ from props import matlab_scope as ms, pyprops
 PID = 'C10'
 KEYS = ['MatlabWrapper.wrap_enum', 'FormatMixin._format_class_name', 'FormatMixin._clean_class_name', 'collect_namespaces',
         'Namespace.full_namespaces', 'MatlabWrapper.get_class_name', 'CheckMixin._has_serialization',
-        'MatlabWrapper.generate_preamble', 'MatlabWrapper.wrap_properties_block']
+        'MatlabWrapper.generate_preamble', 'MatlabWrapper.wrap_properties_block', 'MatlabWrapper._qualified_name']
 
 
 def replay(obj):
@@ -14,7 +14,7 @@ def replay(obj):
 def run(rep, args):
     rep.level = 'other'
     if KEYS:
-        rep.run_proofs(KEYS, ['contracts.common', 'contracts.names', 'contracts.pybind', 'contracts.matlab_text', 'contracts.c06'])
+        rep.run_proofs(KEYS, ['contracts.common', 'contracts.names', 'contracts.pybind', 'contracts.matlab_text', 'contracts.c06', 'contracts.c10_base'])
     pr = rep.classify(rebaseline=args.rebaseline)
     n = 150 if rep.tier == 'quick' else 2500
     if pr['demoted'] or pr['regressions']:
